@@ -15,14 +15,14 @@ def budget(tier, q=QUICK_JOB_BUDGET, t=THOROUGH_JOB_BUDGET):
 
 def wf(prop, graph, items, buf, mx, kind="func", mode="dpor", oracles=(), events_dep=True, tier="quick", **kw):
     scen = {"graph": graph, "items": items, "buf": buf, "max": mx, "kind": kind}
-    for k in ("cores", "extra", "abs_src"):
+    for k in ("cores", "extra", "abs_src", "rev_src"):
         if k in kw:
             scen[k] = kw.pop(k)
     jid = kw.pop("id", None) or f"{prop}-{graph}-i{items}-b{buf}-m{mx}-{kind}-{mode}" + (f"-c{''.join(map(str, scen.get('cores', [])))}" if scen.get("cores") else "") + (f"-d{kw.get('delay')}" if mode == "delay" else "")
     job = {"id": jid, "prop": prop, "scen": scen, "mode": mode, "budget": kw.pop("budget", budget(tier)), "oracles": list(oracles), "events_dep": events_dep, "force_all": -1}
     job.update(kw)
     # scenarios that can also be run natively (real runtime, real bash, un-instrumented scipipe)
-    if graph not in ("tasks", "slots", "gjoin", "gjoin2") and mode == "dpor" and not job.get("crash") and not job.get("race") and not scen.get("abs_src") and scen.get("extra") in (None, "", "recorder", "recorder2", "subdir", "emptyparam-setout", "prepend") \
+    if graph not in ("tasks", "slots", "gjoin", "gjoin2") and mode == "dpor" and not job.get("crash") and not job.get("race") and not scen.get("abs_src") and not scen.get("rev_src") and scen.get("extra") in (None, "", "recorder", "recorder2", "subdir", "emptyparam-setout", "prepend") \
             and not job.get("seed_dir") and job.get("omit_edge") is None and not job.get("omit_fromstr") and not job.get("drop_proc") and not job.get("force_order") and not job.get("fault") and not job.get("external"):
         # (failing runs are not compared natively: os.Exit does not kill the task's child processes,
         # which the model's process-group kill does)
@@ -132,6 +132,7 @@ def plan_c04(tier, seed):
         add("g8", 1, 1, 1); add("g8", 2, 1, 2)
         add("g8b", 2, 1, 1)
         add("g8g", 2, 1, 1); add("g8g", 3, 1, 2)
+        add("g6b", 2, 1, 2, rev_src=True, id="C04-g6b-i2-m2-reverse-name-order")   # pairing follows arrival order, not name order
         add("g6", 1, 1, 1)
         add("g9", 1, 1, 2)
         add("g14a", 1, 1, 1)
@@ -343,6 +344,10 @@ def plan_c07(tier, seed):
             if sum(cores) <= mx:
                 jobs.append(with_delay_fallback(wf("C07", "g13", 1, 1, mx, oracles=o, tier=tier, cores=cores, extra="barrier", events_dep=False, id=f"C07-g13-barrier-m{mx}-c{cs}")))
     jobs.append(with_delay_fallback(wf("C07", "g2", 2, 1, 2, oracles=o, tier=tier, extra="barrier", events_dep=False, id="C07-g2-barrier-2items-m2")))
+    # tasks that ask for NO slot at all (CoresPerTask = 0) next to tasks that do
+    for drv in ("tasks", "slots"):
+        for mx, cores in ((1, [0, 1]), (2, [0, 2]), (2, [1, 0, 1]), (1, [0, 0])):
+            jobs.append(with_delay_fallback(wf("C07", drv, 1, 1, mx, oracles=o, tier=tier, cores=cores, events_dep=False, id=f"C07-{drv}-zero-core-m{mx}-c{''.join(map(str, cores))}")))
     # work conservation inside ONE process: the first and the last of 3 (4) tasks rendezvous on 2 slots while the
     # ones in between come and go (a finished task does not keep a later one from starting)
     jobs.append(with_delay_fallback(wf("C07", "g2", 3, 1, 2, oracles=o, tier=tier, extra="barrier-first-last", events_dep=False, id="C07-g2-barrier-first-last-3items-m2")))
@@ -366,7 +371,7 @@ def plan_c07(tier, seed):
         for g, cores in (("g2", [mx + 1]), ("g11", [1, mx + 1]), ("g11", [mx + 1, 1]), ("g10b", [1, 1, mx + 1]), ("g3", [1, mx + 1])):
             jobs.append(wf("C07", g, 1, 1, mx, oracles=["nohang", "c07-oversize"], tier=tier, cores=cores, events_dep=False, id=f"C07-oversize-{g}-m{mx}-c{''.join(map(str, cores))}"))
     return {"level": "model_checking", "stages": [lambda ctx, prev: jobs],
-            "rule": "all multisets of CoresPerTask over k ready tasks x every interleaving of the token-by-token acquisition (DPOR closed): no deadlock state; barrier variants: k tasks with sum(cores) <= max rendezvous inside their bodies, so a library that serialises them deadlocks; oversize CoresPerTask: exit != 0 and no task of that process starts, in every schedule; environment deviation: the output of a queued task is created by an outside actor at every possible moment -> still no deadlock state",
+            "rule": "all multisets of CoresPerTask over k ready tasks (+ tasks with CoresPerTask = 0 among them) x every interleaving of the token-by-token acquisition (DPOR closed): no deadlock state; barrier variants: k tasks with sum(cores) <= max rendezvous inside their bodies, so a library that serialises them deadlocks; oversize CoresPerTask: exit != 0 and no task of that process starts, in every schedule; environment deviation: the output of a queued task is created by an outside actor at every possible moment -> still no deadlock state",
             "assumptions": BASE_ASSUMPTIONS}
 
 
@@ -383,6 +388,10 @@ def plan_c08(tier, seed):
     add("g2", 3, 1, 3, pre={"in1.txt.p": "p.out(in=in1.txt;)", "in2.txt.p": "p.out(in=in2.txt;)"}, id="C08-g2-i3-m3-pre12")
     add("g2", 3, 1, 2, pre={"in1.txt.p": "p.out(in=in1.txt;)"}, id="C08-g2-i3-m2-pre1")
     add("g3", 2, 1, 2, pre={"in1.txt.p.q": "q.out(in=p.out(in=in1.txt;);)"}, id="C08-g3-i2-m2-preq1")
+    # a process with two out-ports: the order holds on EACH of them
+    add("g7", 2, 1, 2, id="C08-g7-i2-m2-two-out-ports"); add("g7", 3, 1, 3, id="C08-g7-i3-m3-two-out-ports")
+    # arrival order that is NOT the name order of the files
+    add("g2", 3, 1, 2, rev_src=True, id="C08-g2-i3-m2-reverse-name-order"); add("g3", 2, 1, 2, rev_src=True, id="C08-g3-i2-m2-reverse-name-order")
     # fan-out: two receivers on the observed port, each must see the items in order
     jobs.append(with_delay_fallback(wf("C08", "g2", 3, 1, 3, oracles=o, tier=tier, events_dep=False, extra="recorder2", id="C08-g2-i3-m3-two-receivers"), 1))
     jobs.append(with_delay_fallback(wf("C08", "g2", 2, 1, 2, oracles=o, tier=tier, events_dep=False, extra="recorder2", id="C08-g2-i2-m2-two-receivers"), 1))
@@ -738,6 +747,9 @@ def plan_c01(tier, seed):
         jobs.append(wf("C01", "g2", 1, 1, 1, "func", oracles=o + ["clean"], tier=tier, events_dep=False, crash=True, disk_dep=True, extra="writeidiom", id="C01-gofunc-write-idiom"))
         # environment deviation: the absolute destination is on another device, rename(2) answers EXDEV
         jobs.append(with_delay_fallback(wf("C01", "g2", 1, 1, 1, "cmd", oracles=o, tier=tier, events_dep=False, crash=True, disk_dep=True, extra="absout", xdev="abs", id="C01-crash-absout-other-device")))
+        # two tasks in flight whose inputs have the same base name in different directories (their unfinished
+        # files must not meet in one temp directory)
+        jobs.append(with_delay_fallback(wf("C01", "g2", 2, 1, 2, "cmd", oracles=o + ["clean", "c04"], tier=tier, events_dep=False, crash=True, disk_dep=False, extra="samename", id="C01-crash-g2-i2-m2-same-base-names"), 1 if tier == "quick" else 2))
         # a file-writing component: every part FileSplitter finalizes is complete at every instant
         jobs.append(with_delay_fallback(wf("C01", "gsplit1", 1, 1, 1, "func", oracles=o + ["clean"], tier=tier, events_dep=False, crash=True, disk_dep=True, id="C01-crash-filesplitter-3lines")))
         if tier != "quick":
